@@ -101,7 +101,7 @@ def nsteps(o):
     return len(o["steps"])
 
 
-def shard(obs, max_steps=2500):
+def shard(obs, max_steps=1000):
     """split into shards of bounded total step count; returns list of (start index, list)"""
     out = []
     cur = []
